@@ -20,7 +20,7 @@ LEAN_TARGETS = ["RV.C18.Props", "RV.C18.Audit"]
 AUDIT = "RV/C18/Audit.lean"
 DRIVER = "drv_c18"
 CASES = {"quick": 1500, "thorough": 40000, "search": 20000}
-RULE = ("random histories (1-14 ops) of add / pattern-remove / commit / rollback through Graph, ConjunctiveGraph "
+RULE = ("random histories (1-14 ops) of add / batch addN and += (duplicates inside a batch) / pattern-remove / commit / rollback through Graph, ConjunctiveGraph "
         "or Dataset over AuditableStore(Memory), one or two wrappers (disjoint subjects); non-trivial = at least one "
         "rollback or commit happens while the undo log is non-empty; distinct = distinct (cfg, init, ops)")
 ASSUMPTIONS = ["the wrapped Memory store behaves as a set of quads (C01/C02)",
@@ -68,7 +68,17 @@ def gen_case(rng, tier, i):
         w = rng.randint(0, 1) if two else 0
         ss = ([1, 2] if w == 0 else [3, 4]) if two else subs
         r = rng.random()
-        if r < 0.38:
+        if r < 0.10:
+            # batch add (Graph.addN / ConjunctiveGraph.addN / +=): 1-4 quads, duplicates and re-adds likely
+            pool = [q for q in init if q[0] in ss] + [o[2:] for o in ops if o[0] in ("add", "remove") and None not in o[2:] and o[2] in ss]
+            qs = []
+            for _k in range(rng.randint(1, 4)):
+                q = list(rng.choice(pool)) if pool and rng.random() < 0.6 else quad(ss)
+                qs.append(q)
+                if rng.random() < 0.35:
+                    qs.append(list(q))
+            ops.append(["addn", w, qs])
+        elif r < 0.38:
             pool = [q for q in init if q[0] in ss]
             q = rng.choice(pool) if pool and rng.random() < 0.5 else quad(ss)
             ops.append(["add", w] + q)
@@ -143,6 +153,16 @@ def run_impl(case):
             else:
                 top.get_context(gn[c]).add((t(s), t(p), t(o)))
             dirty[w] = True
+        elif kind == "addn":
+            qs = op[2]
+            if cfg == "graph":
+                if k % 2 == 0:
+                    top.addN([(t(s_), t(p_), t(o_), top) for s_, p_, o_, _c in qs])
+                else:
+                    top += [(t(s_), t(p_), t(o_)) for s_, p_, o_, _c in qs]
+            else:
+                top.addN([(t(s_), t(p_), t(o_), top.get_context(gn[c_])) for s_, p_, o_, c_ in qs])
+            dirty[w] = True
         elif kind == "remove":
             s, p, o, c = op[2:]
             if cfg == "graph":
@@ -184,7 +204,8 @@ def run_impl(case):
     return {"obs": obs, "viol": viol, "nontrivial": nontrivial,
             "key": repr((cfg, case["two"], case["init"], case["ops"])),
             "stats": {"ops": len(case["ops"]), "cfg_" + cfg: 1, "two_wrappers": int(case["two"]),
-                      **{"op_" + o[0]: 1 for o in case["ops"]}}}
+                      **{"op_" + o[0]: 1 for o in case["ops"]},
+                      "addn_with_duplicate": int(any(o[0] == "addn" and len({tuple(q) for q in o[2]}) < len(o[2]) for o in case["ops"]))}}
 
 
 def _w(x):
@@ -198,6 +219,9 @@ def model_lines(case):
     for op in case["ops"]:
         if op[0] in ("add", "remove"):
             lines.append(f"{op[0]} {op[1]} " + " ".join(_w(x) for x in op[2:]))
+        elif op[0] == "addn":
+            for q in op[2]:
+                lines.append(f"add {op[1]} " + " ".join(_w(x) for x in q))
         else:
             lines.append(f"{op[0]} {op[1]}")
         lines.append("obs")
@@ -205,9 +229,14 @@ def model_lines(case):
 
 
 def select_model_obs(case, out):
-    # keep only the answers to `obs`
-    n0 = 1 + len(case["init"])
-    return out[n0 + 1::2]
+    # keep only the answers to `obs` (every op is followed by exactly one `obs`; an addn is several add lines)
+    i = 1 + len(case["init"])
+    res = []
+    for op in case["ops"]:
+        i += len(op[2]) if op[0] == "addn" else 1
+        res.append(out[i])
+        i += 1
+    return res
 
 
 def shrink(case):
@@ -216,6 +245,10 @@ def shrink(case):
         yield {**case, "ops": ops[:i] + ops[i + 1:]}
     for i in range(len(init)):
         yield {**case, "init": init[:i] + init[i + 1:]}
+    for i, op in enumerate(ops):
+        if op[0] == "addn" and len(op[2]) > 1:
+            for j in range(len(op[2])):
+                yield {**case, "ops": ops[:i] + [["addn", op[1], op[2][:j] + op[2][j + 1:]]] + ops[i + 1:]}
     if case["two"] and all(o[1] == 0 for o in ops):
         yield {**case, "two": False}
 
